@@ -81,7 +81,7 @@ pub const W5_ALPHABET: [char; 14] = [
 /// `StrInput` overrides special-case (blanks, TAB, breaks incl. CR, document-indicator and
 /// comment characters, flow indicators, a quote, a block-scalar header) plus one non-ASCII.
 pub const C10_ALPHABET: [char; 16] = [
-    'a', ' ', '\n', '\t', '-', '.', ':', '#', '[', ',', '"', '|', '\u{e9}', '\r', '?', '{',
+    'a', ' ', '\n', '\t', '-', '.', ':', '#', '[', ',', '"', '|', '\u{e9}', '\r', '\0', '{',
 ];
 
 pub fn nth_string(alphabet: &[char], mut i: u64) -> String {
@@ -264,7 +264,7 @@ impl<'a> Gen<'a> {
             0..=4 => *self.r.pick(&INDICATORS),
             5 => ' ',
             6 => '\n',
-            7 => *self.r.pick(&['"', '\'', '\\', '%', '@', '`', '\t', '\r', '.', '~']),
+            7 => *self.r.pick(&['"', '\'', '\\', '%', '@', '`', '\t', '\r', '.', '~', '\0', '\u{feff}', '\u{85}']),
             8 => *self.r.pick(&['a', 'b', '0', '1', 'x', 'e']),
             _ => self.r.pick(&NONASCII).chars().next().unwrap(),
         }
@@ -335,6 +335,9 @@ impl<'a> Gen<'a> {
                 let toks = [
                     "- ", ": ", "? ", "[", "]", "{", "}", ", ", " #", "&a ", "*a", "!t ", "|\n", ">\n",
                     "---\n", "...\n", "\"", "'", "\\", "%TAG ! x\n", "|2-\n", ">+1\n", "\t",
+                    // every document indicator followed by every class of terminator
+                    "\n---\t", "\n...\t", "\n---\0", "\n...\0", "\n---\r\n", "\n...\r", "\n--- ", "\n... ", "\n---", "\n...",
+                    "\n---a", "\n....", "\0", "\r", "\u{feff}",
                 ];
                 let t = *self.r.pick(&toks);
                 let at = self.r.usize(n + 1);
